@@ -7,7 +7,7 @@ from lib import impl
 from lib.core import cbytes, clist, cpair, vB, vL, vN
 
 PROPERTY = "C02"
-GEN: list = []
+GEN: list = ["dbadd"]  # Gen/DbAdd.v: HashFileDB.add / add_update_tree decisions, tied to the store step by Proofs/RoundTripTie.v
 RULE = (
     "random directory trees (quick: depth<=4, <=14 files; thorough: depth<=6, <=60 files) with empty "
     "directories (also nested), duplicate contents, empty files, NUL, CR LF, and names drawn from a pool "
@@ -27,7 +27,11 @@ RULE = (
     "equal the CURRENT source; half of these histories move contents between paths (P rewritten, a new "
     "path Q holds P's former bytes) and/or delete all / the moved objects from the store and re-create the "
     "odb object on the same store path between the two builds (one process, same store location); the store "
-    "oracle re-hashes every object. "
+    "oracle re-hashes every object. Linked-checkout history (both store classes, symlink / hardlink, some copy; "
+    "4 fixed + 4 quick / 24 thorough generated): round-trip a tree, check it out with the store's link type, add "
+    "one regular file to the checkout, stage + transfer the checkout into the SAME store; after the transfer every "
+    "object that was in the store must still be there with the same bytes, the workspace unchanged, the transfer "
+    "without failures, and the old and the new tree must both check out byte-identically (object and index level). "
     "Oracle-only stream: trees with 2-4 files above the 1 MiB large-file threshold (thread-pool hashing). "
     "A case is non-trivial when the tree has >= 2 files in >= 2 directories or exercises an error."
 )
@@ -45,7 +49,7 @@ ASSUMPTIONS = [
 IMPORTS = "From Coq Require Import NArith List.\nFrom DvcData Require Import Model.Listing Model.RoundTrip."
 
 NAME_POOL = [
-    "a", "b", "c", "dir", "data", "x.dir", "f.txt", "with space", " lead", "trail ", "q\"uote", "it's",
+    "caf\u00e9.txt", "cafe\u0301.txt", "\u00c5", "a", "b", "c", "dir", "data", "x.dir", "f.txt", "with space", " lead", "trail ", "q\"uote", "it's",
     "back\\slash", "\\", "\"", "tab\there", "new\nline", "cr\rlf", "\x7f", "\x01", "..x", ".hidden", "...",
     "\u00e9", "e\u0301", "\u0301", "\U0001f600", "a\U0001f600b", "\ud55c\uae00", "\ufeffbom", "\u202e",
     "\U0010ffff", "\uffff", "\u0041\u030a", "\u212b", "md5", "relpath", "[", "{\"md5\": 1}", "%s", "~", "*", "-",
@@ -499,8 +503,142 @@ def restage_case(ctx, case, items_restage):
     exp = vL([vN(1), vB(obj1.hash_info.value), vB(obj.hash_info.value), vN(md.get("nfiles", 0)), vN(md.get("size", 0)),
               v_keyhash([(k, h) for k, _m, h in tree_entries(obj)]), v_store(store),
               vL([vN(1), vL([v_fsmap(out_files), v_dirs(out_dirs)])])])
-    items_restage.append((one, cpair(cpair(cbytes(src), clist([cbytes(g) for g in gone])),
+    items_restage.append((one, cpair(cpair(cpair(cbytes(src), cbytes(src)), clist([cbytes(g) for g in gone])),
                                      cpair(walk_term(walk1), walk_term(walk2))), exp))
+    ctx.case(case, True)
+
+
+def store_bytes(path):
+    return {o: b for o, (b, _m) in impl.walk_store(path).items()}
+
+
+def checkout_both(env, odb, hash_info, links):
+    """object-level checkout and index-level apply of a stored directory into fresh locations"""
+    from dvc_objects.fs.local import localfs
+
+    from dvc_data.hashfile import load
+    from dvc_data.hashfile.checkout import checkout
+    from dvc_data.hashfile.meta import Meta
+    from dvc_data.index import DataIndex, DataIndexEntry, ObjectStorage
+    from dvc_data.index.checkout import apply, compare
+
+    o1 = env.out()
+    checkout(o1, localfs, load(odb, hash_info), odb, state=env.state)
+    idx = DataIndex({(): DataIndexEntry(key=(), meta=Meta(isdir=True), hash_info=hash_info)})
+    idx.storage_map.add_cache(ObjectStorage((), odb))
+    o2 = env.out()
+    failures = []
+    apply(compare(None, idx), o2, localfs, state=env.state, links=list(links),
+          onerror=lambda *a: failures.append(a))
+    return o1, o2, len(failures)
+
+
+def relink_case(ctx, case, items_restage):
+    """round-trip a tree -> check it out with the store's link type -> add one file to the checkout ->
+    stage + transfer the checkout into the SAME store.  After the transfer step: every object that
+    was in the store is still there with the same bytes, the workspace is unchanged, the old and the
+    new tree both check out byte-identically (object level and index level)."""
+    from dvc_objects.fs.local import localfs
+
+    from dvc_data.hashfile.build import build
+    from dvc_data.hashfile.transfer import transfer
+
+    files = case_files(case)
+    cfg = tuple(case["relink"]["config"])
+    base = ctx.fresh("relink")
+    src = os.path.join(base, "src")
+    make_source(src, files, case["dirs"])
+    walk1 = observe_walk(src)
+    env = Env(ctx, cfg)
+    one = case
+    step = "stage+transfer of the source"
+    try:
+        odb_path, odb = env.odb()
+        staging, _m, obj_a = build(odb, src, localfs, "md5")
+        res = transfer(staging, odb, {obj_a.hash_info}, shallow=False)
+        store1 = store_bytes(odb_path)
+        step = "link-type checkout"
+        work, _o2, _f = checkout_both(env, odb, obj_a.hash_info, [cfg[1]])
+        if impl.walk_files(work) != files or res.failed:
+            ctx.oracle_fail("C02:relink-first-roundtrip", "the first round trip of the history already differs", one)
+            return
+        kinds = sorted({link_kind(os.path.join(work, *r.split("/"))) for r in files})
+        for k in kinds:
+            ctx.count("relink-checkout-kind:" + k)
+        # add one regular file to the checked-out copy
+        where = case["relink"]["where"]
+        new_rel = (where + "/" if where else "") + case["relink"]["name"]
+        new_data = bytes.fromhex(case["relink"]["data"])
+        with open(os.path.join(work, *new_rel.split("/")), "wb") as f:
+            f.write(new_data)
+        want_b = dict(files)
+        want_b[new_rel] = new_data
+        walk2 = observe_walk(work)
+        step = "stage+transfer of the checkout into the same store"
+        staging, meta, obj_b = build(odb, work, localfs, "md5")
+        res = transfer(staging, odb, {obj_b.hash_info}, shallow=False)
+        store2 = store_bytes(odb_path)
+    except Exception as exc:  # noqa: BLE001
+        ctx.oracle_fail(f"C02:relink-exception:{type(exc).__name__}",
+                        f"linked-checkout history, {step}: raised {type(exc).__name__}: {exc}", one)
+        env.close()
+        impl.rm_rf(base)
+        ctx.case(case, True)
+        return
+    try:
+        # ---- judged after the transfer step
+        lost = sorted(o for o in store1 if o not in store2)
+        changed = sorted(o for o in store1 if o in store2 and store2[o] != store1[o])
+        if lost or changed:
+            ctx.oracle_fail("C02:transfer-destroyed-stored-objects",
+                            f"{cfg}: transferring the re-staged {cfg[1]} checkout into the same store removed "
+                            f"{lost} and changed {changed} (objects that were valid before the transfer)", one)
+        try:
+            now = impl.walk_files(work)
+        except OSError as exc:
+            now = {"<unreadable>": repr(exc)}
+        if now != want_b:
+            bad = sorted(r for r in want_b if now.get(r) != want_b[r])
+            ctx.oracle_fail("C02:transfer-damaged-workspace",
+                            f"{cfg}: the staged checkout itself was damaged by the transfer (paths {bad})", one)
+        if res.failed:
+            ctx.oracle_fail("C02:relink-transfer-failed",
+                            f"{cfg}: transfer of the re-staged checkout reported {len(res.failed)} failed objects", one)
+        md = meta.to_dict()
+        if md.get("nfiles") != len(want_b) or md.get("size") != sum(len(b) for b in want_b.values()):
+            ctx.oracle_fail("C02:relink-meta", f"{cfg}: Meta {md} does not match the staged checkout", one)
+        for oid, data in store2.items():
+            if impl.md5hex(data) != (oid[:-4] if oid.endswith(".dir") else oid):
+                ctx.oracle_fail("C02:relink-store-name", f"{cfg}: object {oid} no longer hashes to its name", one)
+        outs = {}
+        for name, hi, want in (("new", obj_b.hash_info, want_b), ("old", obj_a.hash_info, files)):
+            try:
+                o1, o2, nfail = checkout_both(env, odb, hi, [cfg[1]])
+            except Exception as exc:  # noqa: BLE001
+                ctx.oracle_fail(f"C02:stored-tree-no-longer-checks-out:{name}",
+                                f"{cfg}: after the transfer the {name} tree cannot be checked out: "
+                                f"{type(exc).__name__}: {exc}", one)
+                continue
+            got1, got2 = impl.walk_files(o1), impl.walk_files(o2)
+            outs[name] = (got1, impl.walk_dirs(o1))
+            if got1 != want:
+                ctx.oracle_fail(f"C02:stored-tree-checkout-differs:{name}",
+                                f"{cfg}: object-level checkout of the {name} tree differs after the transfer", one)
+            if got2 != want or nfail:
+                ctx.oracle_fail(f"C02:stored-tree-idx-checkout-differs:{name}",
+                                f"{cfg}: index-level checkout of the {name} tree differs after the transfer "
+                                f"({nfail} failures)", one)
+        if "new" in outs and not res.failed:
+            exp = vL([vN(1), vB(obj_a.hash_info.value), vB(obj_b.hash_info.value), vN(md.get("nfiles", 0)),
+                      vN(md.get("size", 0)), v_keyhash([(k, h) for k, _m, h in tree_entries(obj_b)]),
+                      v_store({o: (b, 0) for o, b in store2.items()}),
+                      vL([vN(1), vL([v_fsmap(outs["new"][0]), v_dirs(outs["new"][1])])])])
+            items_restage.append((one, cpair(cpair(cpair(cbytes(src), cbytes(work)), "[]"),
+                                             cpair(walk_term(walk1), walk_term(walk2))), exp))
+        ctx.count(f"relink:{cfg[0]}/{cfg[1]}/{'state' if cfg[2] else 'nostate'}")
+    finally:
+        env.close()
+        impl.rm_rf(base)
     ctx.case(case, True)
 
 
@@ -585,6 +723,12 @@ def obj_oracle(files, obs):
         return [("C02:stage-refused", f"staging a well-formed tree failed with code {obs['err']}")]
     if obs["co_err"] is not None:
         return [("C02:checkout-failed", f"checkout of a complete store failed with code {obs['co_err']}")]
+    built_paths = {"/".join(k) for k, _h in obs["built"]}
+    if set(obs["out_files"]) != built_paths:
+        problems.append(("C02:checkout-paths-differ-from-built-listing",
+                         f"the checked-out path set differs from the built one: "
+                         f"only built={sorted(built_paths - set(obs['out_files']))} "
+                         f"only checked out={sorted(set(obs['out_files']) - built_paths)}"))
     if obs["out_files"] != files:
         missing = sorted(set(files) - set(obs["out_files"]))
         extra = sorted(set(obs["out_files"]) - set(files))
@@ -797,6 +941,11 @@ def pick_configs(ctx, k):
 
 
 CORPUS = [
+    # both Unicode spellings of one name in one directory (composed / decomposed), and the Angstrom sign
+    # next to its NFC form: no normalisation anywhere between the listing and the checked-out paths
+    {"files": {"caf\u00e9.txt": "6e6663", "cafe\u0301.txt": "6e6664", "d/\u212b": "01", "d/\u00c5": "02",
+               "d/A\u030a": "03"}, "dirs": ["d"],
+     "configs": [["local", "copy", False], ["base", "symlink", True]]},
     # keys that differ only by where the separator falls; duplicate contents; an empty nested directory
     {"files": {"a/b c": "78", "a b/c": "78", "d/e/f": "", "q\"\\": "0d0a00"}, "dirs": ["a", "a b", "d", "d/e", "g", "g/h"],
      "configs": [["local", "copy", False], ["base", "symlink", True], ["local", "hardlink", True]],
@@ -888,6 +1037,25 @@ def run(ctx):
                               "restage": {"config": cfg, "edits": edits, "wipe": wipe}})
     for case in restage_cases:
         restage_case(ctx, case, items_restage)
+    relink_cases = [
+        # the demo history: three files, one added to the link-type checkout
+        {"files": {"a.txt": b"alpha\n".hex(), "sub/b.bin": (b"beta" * 100).hex(), "sub/c": b"gamma".hex()},
+         "dirs": ["sub"], "relink": {"config": [cls, link, False], "where": "sub", "name": "new.dat",
+                                     "data": b"brand new data".hex()}}
+        for cls, link in (("base", "symlink"), ("base", "hardlink"), ("local", "symlink"), ("local", "hardlink"))
+    ]
+    for i in range(ctx.n(4, 24)):
+        files, dirs = gen_tree(ctx.rng, 3, 6, 1)
+        if not any(files.values()):
+            continue
+        cfg = list(ctx.rng.choice([c for c in CONFIGS if c[1] != "copy"] if ctx.rng.random() < 0.85 else CONFIGS))
+        where = ctx.rng.choice([""] + sorted(ancestors(files)))
+        name = f"added-{i}"
+        relink_cases.append({"files": {r: b.hex() for r, b in files.items()}, "dirs": dirs,
+                             "relink": {"config": cfg, "where": where, "name": name,
+                                        "data": ctx.rng.randbytes(ctx.rng.randint(1, 40)).hex()}})
+    for case in relink_cases:
+        relink_case(ctx, case, items_restage)
     ctx.obligation("oracle:roundtrip", not any(v.kind == "oracle" for v in ctx.violations),
                    f"{ctx.evaluations} generated trees/files judged by walk-equals-source, listing, Meta and store-name oracles")
     jobs = [
@@ -897,8 +1065,9 @@ def run(ctx):
          "fun i => checkout_without (fst (fst i)) (snd (fst i)) (snd i)", items_bad, 12),
         ("history", "(list N * walk) * (N * list (list N))",
          "fun i => obj_roundtrip_hist (fst (fst i)) (snd (fst i)) (fst (snd i)) (snd (snd i))", items_hist, 10),
-        ("restage", "(list N * list (list N)) * (walk * walk)",
-         "fun i => restage_val (fst (fst i)) (fst (snd i)) (snd (snd i)) (snd (fst i))", items_restage, 10),
+        ("restage", "((list N * list N) * list (list N)) * (walk * walk)",
+         "fun i => restage2_val (fst (fst (fst i))) (snd (fst (fst i))) (fst (snd i)) (snd (snd i)) (snd (fst i))",
+         items_restage, 10),
         ("file", "list N", "file_roundtrip", items_file, 40),
     ]
     # the six evaluations are independent coqc runs over distinct case files: run them side by side,
@@ -927,6 +1096,8 @@ def replay_case(ctx, case):
         ignore_case(ctx, case, [])
     elif case.get("restage"):
         restage_case(ctx, case, [])
+    elif case.get("relink"):
+        relink_case(ctx, case, [])
     else:
         tree_case(ctx, case, [], [], [])
     problems = [(v.signature, v.what) for v in ctx.violations if v.kind == "oracle"]
